@@ -18,7 +18,7 @@ Definition spec_second_deriv_improved := mkStencil 2 2 [-2; -1; 0; 1; 2]
   (SDiv (SSub (SAdd (SSub (SAdd (SNeg (SV 2)) (SMul (c 16) (SV 1))) (SMul (c 30) (SV 0))) (SMul (c 16) (SV (-1)))) (SV (-2))) (c 12)) (2, 2).
 
 (* effective masses: the argument of the outer function; undefined if a referenced slice is undefined, the denominator
-   value is 0 or the ratio is negative (no real solution) *)
-Definition spec_m_eff_log := mkMStencil 0 1 [0; 1] [1] (Some (0, 1)) (SDiv (SV 0) (SV 1)) (0, 1).
-Definition spec_m_eff_logsym := mkMStencil 1 1 [-1; 1] [1] (Some (-1, 1)) (SDiv (SV (-1)) (SV 1)) (1, 1).
+   value is 0 or the ratio is negative or zero (the logarithm has no real value) *)
+Definition spec_m_eff_log := mkMStencil 0 1 [0; 1] [1] (Some (0, 1, true)) (SDiv (SV 0) (SV 1)) (0, 1).
+Definition spec_m_eff_logsym := mkMStencil 1 1 [-1; 1] [1] (Some (-1, 1, true)) (SDiv (SV (-1)) (SV 1)) (1, 1).
 Definition spec_m_eff_arccosh := mkMStencil 1 1 [-1; 0; 1] [0] None (SDiv (SAdd (SV 1) (SV (-1))) (SMul (c 2) (SV 0))) (1, 1).
